@@ -1,1 +1,168 @@
-From RC Require Import SafeFinalProps.
+(** C04 - "the strong count is exact: [Cc::strong_count] equals the number of existing owners (it
+    can only be too high after a panic leaked a handle, never too low); when the last owner is
+    dropped the value is destroyed and the allocation is freed".
+    Statements only; every proof is [exact <lemma>] (SafeProps.v, SafeFinalPropsA.v,
+    SafeFinalProps.v).  State-level, for every configuration [K]: [SInv K b E W m] is part A's
+    invariant (InvP.v); [b = true] means no handle was leaked by a panic so far; [E] are the
+    handles held by the active frames ([E = []] at top level).  [refs m o] (Inv.v) is the number
+    of strong handles to [o] stored in slots, the bag, strong fields and cleaner fields.
+    NOT derived (see SafeFinalPropsA.v, section LastOwner): "everything the last owner solely
+    owned is destroyed too, recursively": part A's post-condition of the value destructor
+    ([InvP.post_own]) says that [o]'s value becomes [VDropped] and its fields are emptied, not
+    what the recursive [Cc::drop] calls did to their targets. *)
+From Coq Require Import NArith Bool List Lia.
+From stdpp Require Import base list option.
+From RecordUpdate Require Import RecordSet.
+From RC Require Import Hdr Machine RunInd Inv InvP SafeMain SafeProps Pass PassMain SafeFinalPropsA SafeFinalProps.
+Import ListNotations RecordSetNotations.
+Local Open Scope N_scope.
+
+(** while no panic leaked a handle, the reported strong count is the number of existing strong
+    handles (and the weak count the number of existing Weak handles) *)
+Theorem C04_strong_count_exact :
+  forall (K : conf) (E : list id) (self : option id) (l : loc) (m : machine) (r : rloc) (o : id),
+  SInv K true E [] m -> resolve self l m = (m, Some r) -> read_loc r m = Some o ->
+  (exists x : obj, get m o = Some x /\ o_box x = BAlloc /\ o_vst x = VLive /\ mem_id o (dead m) = false /\ o_ismap x = false) ->
+  exists x : obj, get m o = Some x /\
+    cmd_obs self l m =
+    ok (emit (EObs o (N.of_nat (refs m o + cnt_id o E)) (N.of_nat (wrefs m o)) (h_fin (o_hdr x)) true) m) ROk.
+Proof. exact SafeProps.obs_reports_exact_count. Qed.
+Print Assumptions C04_strong_count_exact.
+
+(** in every state (also after caught panics) the reported strong count is at least the number
+    of existing strong handles, at most [max_rc], exact when [b = true]; the weak count is always
+    exact *)
+Theorem C04_never_too_low :
+  forall (K : conf) (b : bool) (E : list id) (self : option id) (l : loc) (m : machine) (r : rloc) (o : id),
+  SInv K b E [] m -> resolve self l m = (m, Some r) -> read_loc r m = Some o ->
+  (exists x : obj, get m o = Some x /\ o_box x = BAlloc /\ o_vst x = VLive /\ mem_id o (dead m) = false /\ o_ismap x = false) ->
+  exists (x : obj) (rc : N), get m o = Some x /\ rc = h_rc (o_hdr x) /\
+    N.of_nat (refs m o + cnt_id o E) <= rc /\ rc <= max_rc /\
+    (b = true -> rc = N.of_nat (refs m o + cnt_id o E)) /\
+    cmd_obs self l m = ok (emit (EObs o rc (N.of_nat (wrefs m o)) (h_fin (o_hdr x)) true) m) ROk.
+Proof. exact SafeFinalProps.obs_never_too_low. Qed.
+Print Assumptions C04_never_too_low.
+
+(** ** The last owner: [Cc::drop] on a handle whose target has strong count 1, is not linked in a
+    collector list and has no finalizer to run *)
+
+(** the definition of [Cc::drop] in that case ([rec] arbitrary, no invariant): decrement, unlink
+    from the buffer, set [dropping] (and the dropped marker with weak-ptrs), run the value's
+    destructor; on normal return release the side record, free the box, restore [dropping] *)
+Theorem C04_last_owner_shape :
+  forall (K : conf) (P : prog) (rec : call -> machine -> machine * outcome) (o : id) (m : machine) (x : obj),
+  get m o = Some x -> o_box x = BAlloc -> is_in_list_or_queue (o_hdr x) = false -> h_rc (o_hdr x) = 1 ->
+  k_fin K && needs_fin (o_hdr x) = false ->
+  step_drop_cc K P rec o m =
+    let '(m2, r) := rec (KDropValue o)
+           (let m1 := remove_from_list o (dec_rc_m o m) in
+            let m1 := m1 <| st_dropping := true |> in
+            if k_weak K then uhdr o set_dropped m1 else m1) in
+    match r with
+    | ONormal => (dealloc K o (drop_metadata K o m2) <| st_dropping := st_dropping m |>, ONormal)
+    | _ => (m2 <| st_dropping := st_dropping m |>, r)
+    end.
+Proof. exact SafeFinalPropsA.step_drop_cc_last_owner. Qed.
+Print Assumptions C04_last_owner_shape.
+
+(** if the destructor returns normally, so does [Cc::drop]; the box of [o] is freed, with the
+    layout of its value, and the [EFree] event is logged ([rec] arbitrary, no invariant) *)
+Theorem C04_last_owner_freed :
+  forall (K : conf) (P : prog) (rec : call -> machine -> machine * outcome) (o : id) (m : machine) (x : obj)
+         (m2 : machine) (y : obj),
+  get m o = Some x -> o_box x = BAlloc -> is_in_list_or_queue (o_hdr x) = false -> h_rc (o_hdr x) = 1 ->
+  k_fin K && needs_fin (o_hdr x) = false ->
+  rec (KDropValue o)
+           (let m1 := remove_from_list o (dec_rc_m o m) in
+            let m1 := m1 <| st_dropping := true |> in
+            if k_weak K then uhdr o set_dropped m1 else m1) = (m2, ONormal) ->
+  get m2 o = Some y ->
+  exists (mf : machine) (yf : obj), step_drop_cc K P rec o m = (mf, ONormal) /\
+    mf = dealloc K o (drop_metadata K o m2) <| st_dropping := st_dropping m |> /\
+    get mf o = Some yf /\ o_box yf = BFreed /\ o_vst yf = o_vst y /\
+    In (EFree o (box_layout K y).1 (box_layout K y).2) (log mf).
+Proof. exact SafeFinalPropsA.last_owner_freed. Qed.
+Print Assumptions C04_last_owner_freed.
+
+(** with part A's specification of the callees (satisfied by every [run K P n]) and its pre-
+    condition for the [Cc::drop] call: the value is destroyed ([VDropped]) and the box freed *)
+Theorem C04_last_owner :
+  forall (K : conf) (P : prog)
+         (PreC : bool -> list id -> call -> machine -> Prop)
+         (PostC : bool -> list id -> call -> machine -> machine -> outcome -> Prop)
+         (rec : call -> machine -> machine * outcome),
+  (forall (b : bool) (E : list id), rec_ok (Pre K PreC b E) (Post K PostC b E) rec) ->
+  forall (b : bool) (E : list id) (o : id) (m : machine) (x : obj) (m2 : machine),
+  Pre K PreC b E (KDropCc o) m ->
+  get m o = Some x -> is_in_list_or_queue (o_hdr x) = false -> h_rc (o_hdr x) = 1 ->
+  k_fin K && needs_fin (o_hdr x) = false ->
+  rec (KDropValue o)
+           (let m1 := remove_from_list o (dec_rc_m o m) in
+            let m1 := m1 <| st_dropping := true |> in
+            if k_weak K then uhdr o set_dropped m1 else m1) = (m2, ONormal) ->
+  exists (mf : machine) (yf : obj), step_drop_cc K P rec o m = (mf, ONormal) /\
+    get mf o = Some yf /\ o_box yf = BFreed /\ o_vst yf = VDropped /\
+    In (EFree o (box_layout K x).1 (box_layout K x).2) (log mf).
+Proof. exact SafeFinalProps.last_owner. Qed.
+Print Assumptions C04_last_owner.
+
+(** ** Pins *)
+Check C04_strong_count_exact :
+  forall (K : conf) (E : list id) (self : option id) (l : loc) (m : machine) (r : rloc) (o : id),
+  SInv K true E [] m -> resolve self l m = (m, Some r) -> read_loc r m = Some o ->
+  (exists x : obj, get m o = Some x /\ o_box x = BAlloc /\ o_vst x = VLive /\ mem_id o (dead m) = false /\ o_ismap x = false) ->
+  exists x : obj, get m o = Some x /\
+    cmd_obs self l m =
+    ok (emit (EObs o (N.of_nat (refs m o + cnt_id o E)) (N.of_nat (wrefs m o)) (h_fin (o_hdr x)) true) m) ROk.
+Check C04_never_too_low :
+  forall (K : conf) (b : bool) (E : list id) (self : option id) (l : loc) (m : machine) (r : rloc) (o : id),
+  SInv K b E [] m -> resolve self l m = (m, Some r) -> read_loc r m = Some o ->
+  (exists x : obj, get m o = Some x /\ o_box x = BAlloc /\ o_vst x = VLive /\ mem_id o (dead m) = false /\ o_ismap x = false) ->
+  exists (x : obj) (rc : N), get m o = Some x /\ rc = h_rc (o_hdr x) /\
+    N.of_nat (refs m o + cnt_id o E) <= rc /\ rc <= max_rc /\
+    (b = true -> rc = N.of_nat (refs m o + cnt_id o E)) /\
+    cmd_obs self l m = ok (emit (EObs o rc (N.of_nat (wrefs m o)) (h_fin (o_hdr x)) true) m) ROk.
+Check C04_last_owner_shape :
+  forall (K : conf) (P : prog) (rec : call -> machine -> machine * outcome) (o : id) (m : machine) (x : obj),
+  get m o = Some x -> o_box x = BAlloc -> is_in_list_or_queue (o_hdr x) = false -> h_rc (o_hdr x) = 1 ->
+  k_fin K && needs_fin (o_hdr x) = false ->
+  step_drop_cc K P rec o m =
+    let '(m2, r) := rec (KDropValue o)
+           (let m1 := remove_from_list o (dec_rc_m o m) in
+            let m1 := m1 <| st_dropping := true |> in
+            if k_weak K then uhdr o set_dropped m1 else m1) in
+    match r with
+    | ONormal => (dealloc K o (drop_metadata K o m2) <| st_dropping := st_dropping m |>, ONormal)
+    | _ => (m2 <| st_dropping := st_dropping m |>, r)
+    end.
+Check C04_last_owner_freed :
+  forall (K : conf) (P : prog) (rec : call -> machine -> machine * outcome) (o : id) (m : machine) (x : obj)
+         (m2 : machine) (y : obj),
+  get m o = Some x -> o_box x = BAlloc -> is_in_list_or_queue (o_hdr x) = false -> h_rc (o_hdr x) = 1 ->
+  k_fin K && needs_fin (o_hdr x) = false ->
+  rec (KDropValue o)
+           (let m1 := remove_from_list o (dec_rc_m o m) in
+            let m1 := m1 <| st_dropping := true |> in
+            if k_weak K then uhdr o set_dropped m1 else m1) = (m2, ONormal) ->
+  get m2 o = Some y ->
+  exists (mf : machine) (yf : obj), step_drop_cc K P rec o m = (mf, ONormal) /\
+    mf = dealloc K o (drop_metadata K o m2) <| st_dropping := st_dropping m |> /\
+    get mf o = Some yf /\ o_box yf = BFreed /\ o_vst yf = o_vst y /\
+    In (EFree o (box_layout K y).1 (box_layout K y).2) (log mf).
+Check C04_last_owner :
+  forall (K : conf) (P : prog)
+         (PreC : bool -> list id -> call -> machine -> Prop)
+         (PostC : bool -> list id -> call -> machine -> machine -> outcome -> Prop)
+         (rec : call -> machine -> machine * outcome),
+  (forall (b : bool) (E : list id), rec_ok (Pre K PreC b E) (Post K PostC b E) rec) ->
+  forall (b : bool) (E : list id) (o : id) (m : machine) (x : obj) (m2 : machine),
+  Pre K PreC b E (KDropCc o) m ->
+  get m o = Some x -> is_in_list_or_queue (o_hdr x) = false -> h_rc (o_hdr x) = 1 ->
+  k_fin K && needs_fin (o_hdr x) = false ->
+  rec (KDropValue o)
+           (let m1 := remove_from_list o (dec_rc_m o m) in
+            let m1 := m1 <| st_dropping := true |> in
+            if k_weak K then uhdr o set_dropped m1 else m1) = (m2, ONormal) ->
+  exists (mf : machine) (yf : obj), step_drop_cc K P rec o m = (mf, ONormal) /\
+    get mf o = Some yf /\ o_box yf = BFreed /\ o_vst yf = VDropped /\
+    In (EFree o (box_layout K x).1 (box_layout K x).2) (log mf).
